@@ -28,6 +28,13 @@ def scenarios(cfg5):
         sc.append(("legacy_badconfirm", lambda p: (p.pair_legacy(io=3, good=False), p.send("key 0 0"), p.pair_legacy(io=3))))
         sc.append(("legacy_random_first", lambda p: (p.request(False, io=3), p.random(), p.confirm())))
         sc.append(("legacy_confirm_twice", lambda p: (p.request(False, io=3), p.confirm(), p.confirm(), p.random())))
+        def stale_confirm(p):
+            # a confirm value left over from an abandoned exchange must not make a later Pairing Random acceptable
+            p.request(False, io=3); p.confirm(); mr = p.mrand; p.pdu([11]); p.request(False, io=3)
+            if mr is not None:
+                p.pdu([4] + mr)
+            p.send("key 0 0")
+        sc.append(("legacy_stale_confirm", stale_confirm))
         sc.append(("legacy_repair", lambda p: (p.pair_legacy(io=3), p.request(False, io=3), p.pair_legacy(io=3), p.send("key 0 0"))))
     if v in ("lesc", "both"):
         for io in range(5):
